@@ -51,7 +51,15 @@ let () =
   register "static" (function
     | [h; tree; route; uri] ->
       let fs = build tree in
-      let route = bytes_of_hex route and uri = bytes_of_hex uri in
+      (* @BASE@ (absolute path of the real base directory) is the model's root: it vanishes *)
+      let strip_base (l : int list) : int list =
+        let tok = [64;66;65;83;69;64] in
+        let rec pre a b = match a, b with [], _ -> true | x :: a', y :: b' -> x = y && pre a' b' | _, [] -> false in
+        let rec go = function
+          | [] -> []
+          | (c :: r) as l -> if pre tok l then go (Stdlib.List.filteri (fun i _ -> i >= 6) l) else c :: go r in
+        go l in
+      let route = bytes_of_hex route and uri = Stdlib.List.map n_of_int (strip_base (ints_of_hex uri)) in
       (match h with
        | "serve_dir" -> show (StaticFs.serve_dir fs www route uri)
        | "serve_as_file_path" -> show (StaticFs.serve_as_file_path fs www uri)
